@@ -73,7 +73,7 @@ check("C09", "model_checking",
       SEQ_NOTE, "explicit-state search over multi-handle operation sequences of the real Stack with a reference staleness oracle", "DESIGN.md 5.3, 6/C09", "seqbfs")
 check("C12", "model_checking",
       "Breadth-first search over all reachable (live set, tombstone set) states of a stack with name checking, over 6 well-formed names rich in prefix relations and 5 malformed ones: in EVERY state every transaction of <=2 records (add or delete; 242 transactions, thorough adds 3-record ones) is submitted through Add and through both two-table splits of an Addition, and CompactAll is applied; acceptance must equal the reference rule (accept iff every added name is well-formed and (live - deletions) + additions is conflict-free) and the live set read back must equal the model's and be conflict-free.",
-      SEQ_NOTE + " Two known findings (multi-table Additions are validated table by table against the committed view only) are listed in known_findings.json with class-specific signatures; any other disagreement is reported.", "breadth-first search over reachable name states x all small transactions on the real Stack against a reference rule", "DESIGN.md 6/C12", "seqbfs")
+      SEQ_NOTE + " One known finding (a multi-table Addition whose earlier table is only legal because of a later one is refused) is listed in known_findings.json with a class-specific signature; any other disagreement is reported.", "breadth-first search over reachable name states x all small transactions on the real Stack against a reference rule", "DESIGN.md 6/C12", "seqbfs")
 check("C13", "model_checking",
       "Every stack of <=3 tables whose tables hold, per ref, nothing / an entry at one of two times / a tombstone of the entry in the table below (quick: reduced options for the second ref), with refs present, x every expiry configuration from {Time: unset, below, equal to, between and above the data values} x {Min, Max update index: unset, 1..4}: CompactAll(cfg) on the real Stack must leave exactly the entries the reference rule keeps (drop iff time < Time or index outside [Min,Max]), every kept field identical, refs untouched, and a handle opened afterwards must see the same.",
       SEQ_NOTE, "bounded-exhaustive enumeration of stacks x expiry configurations on the real Stack against the reference expiry rule", "DESIGN.md 6/C13", "seqbfs")
